@@ -63,6 +63,8 @@ PROPS = {
         "level": "exploration",
         "tests": [
             {"name": "TestC11", "quick": 1500, "thorough": 40000},
+            # complete truth table of the enablement rule for one dependency
+            {"name": "TestC11Table", "kind": "plain", "quick": 1, "thorough": 1, "shards_quick": 4, "shards_thorough": 8},
         ],
     },
     "C17": {
